@@ -5,6 +5,9 @@ import PfVerif.Proofs.C18Part
 import PfVerif.Proofs.C18Topo
 import PfVerif.Proofs.C18AreaSize
 import PfVerif.Proofs.C18Ok
+import PfVerif.Proofs.C18PfLoop
+import PfVerif.Proofs.C18PfLinkLoop
+import PfVerif.Proofs.C18PfRefine
 /-! # C18 — sub-basin maps are upstream-closed partitions consistent with their outlets
 
 All theorems quantify over every network `ds`, every downstream-first cell order `seq` (`Topo`,
@@ -437,9 +440,9 @@ Then every returned outlet carries a non-zero code and every cell of the network
 the FIRST returned outlet on its downstream path, 0 iff there is none.
 Loop invariant (`PfafInv`): a coded cell that is not a returned outlet is the main upstream cell of its
 downstream cell, is a stream cell, and carries its downstream cell's code.
-Missing for the unconditional statement: `ok = true` for every genuine tie-free upstream-area field
-(needs: `sortDesc` by `uparea[ds ·]` orders confluences of one stem from down- to upstream, and
-distinct stems carry distinct codes); the flag is evaluated on every run of the model by the harness. -/
+The side condition is discharged for every input that satisfies the documented preconditions by `pfaf_ok` below
+(stage 4); the unconditional forms are `pfaf_partition_total` and `pfaf_closure`. The flag is still evaluated on every
+run of the model by the harness. -/
 theorem pfaf_partition (pits : List Nat) (ds : Array Nat) (seq : List Nat) (usMain : Array Nat)
     (uparea : Array Int) (mask : Option (Array Bool)) (depth : Nat) (hd : 1 ≤ depth)
     (htopo : Topo ds seq) (hb : ∀ i ∈ seq, i < ds.size) (hus : usMainOK ds usMain = true)
@@ -485,31 +488,10 @@ theorem pfaf_partition (pits : List Nat) (ds : Array Nat) (seq : List Nat) (usMa
         (fun _ => Iff.rfl) (fun o ho => (hget o (hinv.out o ho).1).symm)
     exact ⟨hout, hlab, fun i hi => (hlab i hi).zero_iff hout⟩
 
-/- Full statement NOT proved (`pfaf_ok`: the side condition holds for every genuine upstream-area field,
-which would make `pfaf_partition`, `pfaf_upstream_closed`, `pfaf_link_nonoutlet` unconditional):
-   theorem pfaf_ok … (hd : 1 ≤ depth) (htopo : Topo ds seq) (hb : ∀ i ∈ seq, i < ds.size)
-     (hus : usMainOK ds usMain = true) (hpits : pits.Nodup ∧ ∀ p ∈ pits, p ∈ seq ∧ ds[p]! = p)
-     (hmono : ∀ i ∈ seq, ds[i]! ≠ i → uparea[i]! < uparea[ds[i]!]!)   -- accumulation of positive cell areas
-     (htot : ∀ i ∈ seq, ds[i]! ≠ i → usMain[ds[i]!]! < ds.size)       -- a cell with an inflow has a main upstream cell
-     (h : subbasinsPfafstetter pits ds seq usMain uparea mask depth = some (lab, idxs, tie, ok)) : ok = true
-(no tie-freeness is needed for `ok`; ties only matter for model = code because NumPy's argsort is unstable).
-Proved part: `pfaf_ok_step_partial` below reduces the check made at every inter-basin creation to
-"the confluence cell `idxs_ds[idx]` carries `pfaf_int_ds`". Missing, in the order they would be proved,
-as one joint invariant of `pfInner`/`pfLoop` (each needs the others):
- (1) fresh codes: a code written by `pfInner (pfaf0, d0)` lies in the block `(pfaf0, pfaf0 + 10^(depth-d0+1))`,
-     blocks of the entries of `labs` are pairwise disjoint and contain no code of `pfaf_branch` above their root
-     (interval arithmetic, `i ≤ 3` because at most four tributaries are selected);
- (2) hence distinct returned outlets carry distinct codes of `pfaf_branch`, every coded cell has a coded
-     downstream cell, and (with `PfafInv.down`) the cells carrying one code form ONE contiguous chain of
-     main-upstream links above the code's outlet; an inter-basin fill relabels no returned outlet
-     (needs acyclicity: `hmono` along the two paths);
- (3) inside `pfInner`: every remaining tributary `t` has `pfaf_branch[ds t] = pfaf_int_ds` or its inter-basin
-     outlet already returned; kept by the inter-basin fill because `ds t` lies on the chain above the
-     current confluence — the other position is excluded by `sortDesc_sorted` (keys `uparea[ds ·]`
-     non-increasing) and `hmono`;
- (4) the selected tributaries are unassigned cells with `usMain[ds t] ≠ t` (from `tributaries` and the
-     recurrence of `streamOrderClassic`), the stem fills do not touch them.
-The flag is evaluated on every run of the model by the harness (`model.ib_ok`). -/
+/- `pfaf_ok` (the side condition holds for every input that satisfies the documented preconditions) was the open item
+of stage 3; it is proved below (section "the side condition is always met"), together with the link rule on every link
+(`pfaf_link`) and the refinement across depths (`pfaf_refine`), from one joint invariant of `pfPits`/`pfLoop`/`pfInner`.
+`pfaf_ok_step_partial` is kept: it is the reduction of the run-time check to "the confluence cell carries `pfaf_int_ds`". -/
 /-- **the side condition, one step** (partial result towards `pfaf_ok`): in a state that satisfies the
 partition invariant, the check `idx1 < n ∧ (pfaf_branch[idx1] = 0 ∨ pfaf_branch[idx1] = pfaf_int_ds)` made
 when the inter-basin outlet `idx1 = idxs_us_main[d]` above the confluence cell `d` is created succeeds
@@ -535,13 +517,8 @@ theorem pfaf_upstream_closed (pits : List Nat) (ds : Array Nat) (seq : List Nat)
 /-- **link rule, reduced to the links that leave a returned outlet** (algorithm level, same side
 condition): on every other link of the network the two codes are equal, so the rule
 "at the first level where the codes differ the downstream digit is odd and smaller" holds trivially.
-Missing for the full link rule: the links `o → ds o` of returned outlets `o` — needs that later
-(deeper-level) writes keep the digits of the levels above, and that the inter-basin below a
-tributary carries a smaller digit (visiting order); evaluated per run by `linkOK` (`pfaf_link_cert`).
-Both ingredients are consequences of the joint invariant (1)-(4) listed at `pfaf_ok` above (the code of the
-confluence cell when the `i`-th tributary is labelled is `pfaf0 + 2i·p`, the tributary gets `pfaf0 + (2i+1)·p`,
-the inter-basin above `pfaf0 + (2i+2)·p`; later writes stay inside the block of the code they replace), so the
-link rule and the refinement across depths are blocked by the same missing invariant, not by separate ideas. -/
+The links `o → ds o` of returned outlets `o` are covered by `pfaf_link` below (stage 4), which holds on every link
+under the documented preconditions; `linkOK` (`pfaf_link_cert`) is still evaluated per run on the implementation's output. -/
 theorem pfaf_link_nonoutlet (pits : List Nat) (ds : Array Nat) (seq : List Nat) (usMain : Array Nat)
     (uparea : Array Int) (mask : Option (Array Bool)) (depth : Nat) (hd : 1 ≤ depth)
     (htopo : Topo ds seq) (hb : ∀ i ∈ seq, i < ds.size) (hus : usMainOK ds usMain = true)
@@ -551,6 +528,278 @@ theorem pfaf_link_nonoutlet (pits : List Nat) (ds : Array Nat) (seq : List Nat) 
   have := pfaf_upstream_closed pits ds seq usMain uparea mask depth hd htopo hb hus lab idxs tie h j hj hout
   unfold linkOKAt
   simp [this]
+
+/-! ### the side condition is always met (stage 4): `pfaf_ok` and the unconditional theorems -/
+
+/-- **the side condition holds for every input that satisfies the documented preconditions** (algorithm
+level, no size bound): `depth ≥ 1`, a downstream-first cell order that holds every cell of the network,
+a main-upstream map that is a map to inflowing cells (`usMainOK`) and is defined wherever there is an inflow,
+an upstream-area field that is strictly larger at the downstream cell (accumulation of positive cell areas;
+no tie-freeness is needed), distinct pits. Any mask. Then the model's flag `ok` is `true`: whenever an
+inter-basin outlet is created it is a raster cell whose code is 0 or the code of the inter-basin below.
+Proof (Proofs/C18PfStem, C18PfG, C18PfFresh, C18PfInner, C18PfLoop): one joint invariant of `pfPits` / `pfLoop` / `pfInner`:
+(1) `PfFresh`/`PfFreshIn`: every pending entry `(c, d)` of `labs` owns the block `[c, c + 10^(depth-d+1))`, blocks are
+pairwise disjoint and hold no code other than their root, the unused part of the popped block holds no code at all;
+(2) `PfG`: the partition invariant `PfafInv`, distinct returned outlets carry distinct codes, every coded cell has a
+coded downstream cell; hence (`PfG.chain`, `PfG.chain_above`) the cells of one code form one contiguous chain of
+main-upstream links above the code's outlet, ordered by upstream area, and an inter-basin fill relabels exactly the
+cells of `pfaf_int_ds` above the confluence and no returned outlet (`PfG.step_int`);
+(3) `PfRem`: every remaining tributary is an unassigned non-main inflow (`tributaries_nonmain`, from the recurrence of
+the classic stream order) whose confluence cell carries `pfaf_int_ds` or whose inter-basin outlet was returned already,
+kept by the inter-basin fill because the confluences are sorted by upstream area (`sortDesc_sorted`). -/
+theorem pfaf_ok (pits : List Nat) (ds : Array Nat) (seq : List Nat) (usMain : Array Nat)
+    (uparea : Array Int) (mask : Option (Array Bool)) (depth : Nat) (hd : 1 ≤ depth)
+    (htopo : Topo ds seq) (hb : ∀ i ∈ seq, i < ds.size)
+    (hall : ∀ i, i < ds.size → ds[i]! < ds.size → i ∈ seq)
+    (hus : usMainOK ds usMain = true)
+    (htot : ∀ i ∈ seq, ds[i]! ≠ i → usMain[ds[i]!]! < ds.size)
+    (hmono : ∀ i ∈ seq, ds[i]! ≠ i → uparea[i]! < uparea[ds[i]!]!)
+    (hpn : pits.Nodup) (hpits : ∀ p ∈ pits, p ∈ seq ∧ ds[p]! = p)
+    (lab : Array Int) (idxs : List Nat) (tie ok : Bool)
+    (h : subbasinsPfafstetter pits ds seq usMain uparea mask depth = some (lab, idxs, tie, ok)) :
+    ok = true := by
+  cases hbr : pfBranch pits ds seq usMain uparea mask depth with
+  | none => simp [subbasinsPfafstetter, hbr] at h
+  | some x =>
+    obtain ⟨br, idxs', tie', ok'⟩ := x
+    simp only [subbasinsPfafstetter, hbr, Option.map_some, Option.some.injEq, Prod.mk.injEq] at h
+    obtain ⟨_, _, _, h4⟩ := h
+    subst h4
+    exact (pfBranch_joint pits ds seq usMain uparea mask depth hd
+      ⟨htopo, hb, hall, usMainOK_spec hus, htot, hmono⟩ hpn hpits br idxs' tie' ok' hbr).1
+
+/-- **first-returned-outlet partition of the Pfafstetter map, unconditional** (`pfaf_partition` without the flag
+hypothesis, discharged by `pfaf_ok`): under the documented preconditions every returned outlet carries a non-zero
+code, every cell of the network carries the code of the FIRST returned outlet on its downstream path, and a cell is
+unlabelled iff no returned outlet lies on that path. -/
+theorem pfaf_partition_total (pits : List Nat) (ds : Array Nat) (seq : List Nat) (usMain : Array Nat)
+    (uparea : Array Int) (mask : Option (Array Bool)) (depth : Nat) (hd : 1 ≤ depth)
+    (htopo : Topo ds seq) (hb : ∀ i ∈ seq, i < ds.size)
+    (hall : ∀ i, i < ds.size → ds[i]! < ds.size → i ∈ seq)
+    (hus : usMainOK ds usMain = true)
+    (htot : ∀ i ∈ seq, ds[i]! ≠ i → usMain[ds[i]!]! < ds.size)
+    (hmono : ∀ i ∈ seq, ds[i]! ≠ i → uparea[i]! < uparea[ds[i]!]!)
+    (hpn : pits.Nodup) (hpits : ∀ p ∈ pits, p ∈ seq ∧ ds[p]! = p)
+    (lab : Array Int) (idxs : List Nat) (tie ok : Bool)
+    (h : subbasinsPfafstetter pits ds seq usMain uparea mask depth = some (lab, idxs, tie, ok)) :
+    (∀ o ∈ idxs, lab[o]! ≠ 0) ∧
+    (∀ i ∈ seq, LabelOK ds (· ∈ idxs) (fun o => lab[o]!) i lab[i]!) ∧
+    (∀ i ∈ seq, lab[i]! = 0 ↔ ∀ m, iterA ds m i ∉ idxs) := by
+  have hok := pfaf_ok pits ds seq usMain uparea mask depth hd htopo hb hall hus htot hmono hpn hpits
+    lab idxs tie ok h
+  subst hok
+  exact pfaf_partition pits ds seq usMain uparea mask depth hd htopo hb hus lab idxs tie h
+
+/-- **upstream closure of the Pfafstetter map, unconditional**: under the documented preconditions a cell of the
+network that is not a returned outlet carries the code of its downstream cell. -/
+theorem pfaf_closure (pits : List Nat) (ds : Array Nat) (seq : List Nat) (usMain : Array Nat)
+    (uparea : Array Int) (mask : Option (Array Bool)) (depth : Nat) (hd : 1 ≤ depth)
+    (htopo : Topo ds seq) (hb : ∀ i ∈ seq, i < ds.size)
+    (hall : ∀ i, i < ds.size → ds[i]! < ds.size → i ∈ seq)
+    (hus : usMainOK ds usMain = true)
+    (htot : ∀ i ∈ seq, ds[i]! ≠ i → usMain[ds[i]!]! < ds.size)
+    (hmono : ∀ i ∈ seq, ds[i]! ≠ i → uparea[i]! < uparea[ds[i]!]!)
+    (hpn : pits.Nodup) (hpits : ∀ p ∈ pits, p ∈ seq ∧ ds[p]! = p)
+    (lab : Array Int) (idxs : List Nat) (tie ok : Bool)
+    (h : subbasinsPfafstetter pits ds seq usMain uparea mask depth = some (lab, idxs, tie, ok))
+    (j : Nat) (hj : j ∈ seq) (hout : j ∉ idxs) : lab[j]! = lab[ds[j]!]! := by
+  obtain ⟨_, h2, _⟩ := pfaf_partition_total pits ds seq usMain uparea mask depth hd htopo hb hall hus htot
+    hmono hpn hpits lab idxs tie ok h
+  exact ((h2 j hj).step_down hout).unique (h2 _ (htopo.ds_mem j hj))
+
+/-- **link rule of the Pfafstetter map, every link, unconditional** (algorithm level, no size bound; replaces the
+per-run certificate `linkOK` for the model output): under the documented preconditions, for every level `k < depth` and
+every cell `j` of the network: if `j` and its downstream cell are labelled, lie in the same basin of the level above
+(`pre k` equal) and their digits at level `k` differ, then the downstream digit is odd (an inter-basin on the main stem)
+and smaller than the digit of `j` — including the links `o → ds o` that leave a returned outlet.
+Proof (Proofs/C18PfArith, C18PfLinkInv, C18PfLinkInner, C18PfLinkLoop): the joint invariant of `pfaf_ok` extended by
+(a) `PfQ`: the worklist is processed level by level (sorted by level, at most two levels pending) and the digits
+`0 .. depth-d` of a pending code of level `d` are all 1; (b) `PfH`/`PfHIn`: every returned outlet `o` that is not a pit was
+created at some level `e < depth` with `LinkE e code(o) code(ds o)` (the codes agree above `e`, the digit of `ds o` at `e` is
+odd and smaller: the confluence cell carries `pfaf0 + 2k·10^e`, the tributary `pfaf0 + (2i+1)·10^e`, the inter-basin above
+`pfaf0 + (2i+2)·10^e`, `k ≤ i ≤ 3`); no pending entry is shallower than `e`, so a later inter-basin fill relabels `ds o` only
+below level `e` (`quot_refine`), except at level `e` itself, which is excluded for outlets created by an earlier `pfInner`
+because their downstream code lies outside the popped block, and for outlets of the running `pfInner` because the fill stays
+strictly above the current confluence (upstream areas). `LinkE.final` turns `LinkE e` into the rule for the codes reduced
+modulo `10^depth` at every level `k` (`k > e`: digits equal; `k = e`: the rule; `k < e`: prefixes differ). -/
+theorem pfaf_link (pits : List Nat) (ds : Array Nat) (seq : List Nat) (usMain : Array Nat)
+    (uparea : Array Int) (mask : Option (Array Bool)) (depth : Nat) (hd : 1 ≤ depth)
+    (htopo : Topo ds seq) (hb : ∀ i ∈ seq, i < ds.size)
+    (hall : ∀ i, i < ds.size → ds[i]! < ds.size → i ∈ seq)
+    (hus : usMainOK ds usMain = true)
+    (htot : ∀ i ∈ seq, ds[i]! ≠ i → usMain[ds[i]!]! < ds.size)
+    (hmono : ∀ i ∈ seq, ds[i]! ≠ i → uparea[i]! < uparea[ds[i]!]!)
+    (hpn : pits.Nodup) (hpits : ∀ p ∈ pits, p ∈ seq ∧ ds[p]! = p)
+    (lab : Array Int) (idxs : List Nat) (tie ok : Bool)
+    (h : subbasinsPfafstetter pits ds seq usMain uparea mask depth = some (lab, idxs, tie, ok))
+    (k : Nat) (hk : k < depth) (j : Nat) (hj : j ∈ seq) : linkOKAt ds lab k j = true := by
+  have hok := pfaf_ok pits ds seq usMain uparea mask depth hd htopo hb hall hus htot hmono hpn hpits
+    lab idxs tie ok h
+  subst hok
+  by_cases hout : j ∈ idxs
+  · by_cases hp : ds[j]! = j
+    · unfold linkOKAt; simp [hp]
+    · cases hbr : pfBranch pits ds seq usMain uparea mask depth with
+      | none => simp [subbasinsPfafstetter, hbr] at h
+      | some x =>
+        obtain ⟨br, idxs', tie', ok'⟩ := x
+        simp only [subbasinsPfafstetter, hbr, Option.map_some, Option.some.injEq, Prod.mk.injEq] at h
+        obtain ⟨h1, h2, _, _⟩ := h
+        subst h1 h2
+        obtain ⟨_, g, hh⟩ := pfBranch_link pits ds seq usMain uparea mask depth hd
+          ⟨htopo, hb, hall, usMainOK_spec hus, htot, hmono⟩ hpn hpits br idxs' tie' ok' hbr
+        obtain ⟨e, he, hl, _⟩ := hh j hout hp
+        obtain ⟨jlt, jne⟩ := g.inv.out j hout
+        have hdne := g.dn j jlt jne
+        have hlj := pfaf_lab_seed ds seq br depth htopo hb g.inv.size j hj jne
+        have hld := pfaf_lab_seed ds seq br depth htopo hb g.inv.size _ (htopo.ds_mem j hj) hdne
+        unfold linkOKAt
+        simp only [hlj, hld]
+        simp only [Bool.or_eq_true, Bool.and_eq_true, beq_iff_eq, bne_iff_ne, ne_eq, decide_eq_true_eq]
+        rcases hl.final he k hk with h3 | h3 | h3
+        · exact Or.inl (Or.inl (Or.inr h3))
+        · exact Or.inl (Or.inr h3)
+        · exact Or.inr h3
+  · exact pfaf_link_nonoutlet pits ds seq usMain uparea mask depth hd htopo hb hus lab idxs tie h j hj hout k
+
+/-- the executable link certificate accepts the model's output for every input that satisfies the documented
+preconditions (the order holds every cell of the network) -/
+theorem pfaf_linkOK (pits : List Nat) (ds : Array Nat) (seq : List Nat) (usMain : Array Nat)
+    (uparea : Array Int) (mask : Option (Array Bool)) (depth : Nat) (hd : 1 ≤ depth)
+    (htopo : Topo ds seq) (hb : ∀ i ∈ seq, i < ds.size)
+    (hall : ∀ i, i < ds.size → ds[i]! < ds.size → i ∈ seq)
+    (hval : ∀ i, isValid ds i = true → i ∈ seq)
+    (hus : usMainOK ds usMain = true)
+    (htot : ∀ i ∈ seq, ds[i]! ≠ i → usMain[ds[i]!]! < ds.size)
+    (hmono : ∀ i ∈ seq, ds[i]! ≠ i → uparea[i]! < uparea[ds[i]!]!)
+    (hpn : pits.Nodup) (hpits : ∀ p ∈ pits, p ∈ seq ∧ ds[p]! = p)
+    (lab : Array Int) (idxs : List Nat) (tie ok : Bool)
+    (h : subbasinsPfafstetter pits ds seq usMain uparea mask depth = some (lab, idxs, tie, ok)) :
+    linkOK ds depth lab = true := by
+  unfold linkOK
+  simp only [List.all_eq_true, List.mem_range, Bool.or_eq_true, Bool.not_eq_true']
+  intro k hk i _
+  by_cases hv : isValid ds i = true
+  · exact Or.inr (pfaf_link pits ds seq usMain uparea mask depth hd htopo hb hall hus htot hmono hpn hpits
+      lab idxs tie ok h k hk i (hval i hv))
+  · left; simpa using hv
+
+/-- **refinement across depths, unconditional** (algorithm level, no size bound): under the documented preconditions the
+map for `depth + 1`, integer-divided by 10, is the map for `depth` — in every cell of the raster.
+Proof (Proofs/C18PfSo, C18PfRefInv, C18PfSim, C18PfSimLoop, C18PfRefine): a simulation between the two runs of the model.
+(a) While levels `≤ depth` are processed, the run for `depth + 1` is in lock-step with the run for `depth`: same
+outlets, codes `phi c = 10·c + 1`, same worklist plus entries of level `depth + 1` at its end (`pfPits_sim`, `pfInner_sim`,
+`pfLoop_sim`). The two reduced stream orders differ only on cells of order `depth + 2`; the stem fills never meet such a
+cell (`stemFill_sim_sub`: the main upstream cell keeps the order), and no tributary of order `depth + 2` hangs on a cell
+that carries a code of level `≤ depth` (`trib_filter_eq`, from the invariant `PfOrd`: the cells of a pending code of
+level `d` have order `≤ d`). (b) What the deeper run does afterwards (level `depth + 1` only) changes the last digit of a
+coded cell, and gives a newly coded cell a code that agrees with its downstream cell above the last digit (`PfEvo`: one
+`pfInner` moves codes inside the popped block only; `pfLoop_ref`). (c) `fill_refine`: hence the filled seeds of the
+deeper run, divided by 10, are the filled seeds of the shallower run; reduction modulo `10^(depth+1)` / `10^depth`
+commutes with the division (`quot_mod`). -/
+theorem pfaf_refine (pits : List Nat) (ds : Array Nat) (seq : List Nat) (usMain : Array Nat)
+    (uparea : Array Int) (mask : Option (Array Bool)) (depth : Nat) (hd : 1 ≤ depth)
+    (htopo : Topo ds seq) (hb : ∀ i ∈ seq, i < ds.size)
+    (hall : ∀ i, i < ds.size → ds[i]! < ds.size → i ∈ seq)
+    (hus : usMainOK ds usMain = true)
+    (htot : ∀ i ∈ seq, ds[i]! ≠ i → usMain[ds[i]!]! < ds.size)
+    (hmono : ∀ i ∈ seq, ds[i]! ≠ i → uparea[i]! < uparea[ds[i]!]!)
+    (hpn : pits.Nodup) (hpits : ∀ p ∈ pits, p ∈ seq ∧ ds[p]! = p)
+    (lab lab' : Array Int) (idxs idxs' : List Nat) (tie ok tie' ok' : Bool)
+    (h : subbasinsPfafstetter pits ds seq usMain uparea mask depth = some (lab, idxs, tie, ok))
+    (h' : subbasinsPfafstetter pits ds seq usMain uparea mask (depth + 1) = some (lab', idxs', tie', ok')) :
+    lab.size = lab'.size ∧ ∀ i : Nat, lab'[i]! / 10 = lab[i]! := by
+  have c : PfCtx ds usMain seq uparea := ⟨htopo, hb, hall, usMainOK_spec hus, htot, hmono⟩
+  cases hbr : pfBranch pits ds seq usMain uparea mask depth with
+  | none => simp [subbasinsPfafstetter, hbr] at h
+  | some x =>
+    obtain ⟨brA, idxsA, tieA, okA⟩ := x
+    cases hbr' : pfBranch pits ds seq usMain uparea mask (depth + 1) with
+    | none => simp [subbasinsPfafstetter, hbr'] at h'
+    | some x' =>
+      obtain ⟨brB, idxsB, tieB, okB⟩ := x'
+      simp only [subbasinsPfafstetter, hbr, hbr', Option.map_some, Option.some.injEq, Prod.mk.injEq] at h h'
+      obtain ⟨h1, _, _, _⟩ := h
+      obtain ⟨h1', _, _, _⟩ := h'
+      subst h1 h1'
+      obtain ⟨k1, k2, gB, hszA⟩ := pfBranch_refine pits ds seq usMain uparea mask depth hd c hpn hpits
+        brA brB idxsA idxsB tieA okA tieB okB hbr hbr'
+      obtain ⟨_, gA⟩ := pfBranch_joint pits ds seq usMain uparea mask depth hd c hpn hpits brA idxsA tieA okA hbr
+      have hszB := gB.inv.size
+      have hbA : ∀ i ∈ seq, i < brA.size := fun i hi => by rw [hszA]; exact hb i hi
+      have hbB : ∀ i ∈ seq, i < brB.size := fun i hi => by rw [hszB]; exact hb i hi
+      have hfA : (fillnodataUpstream ds seq brA 0).size = ds.size := by simp [fillnodataUpstream, hszA]
+      have hfB : (fillnodataUpstream ds seq brB 0).size = ds.size := by simp [fillnodataUpstream, hszB]
+      have hfill : ∀ i : Nat, (fillnodataUpstream ds seq brB 0)[i]! / 10 = (fillnodataUpstream ds seq brA 0)[i]! := by
+        intro i
+        by_cases hi : i ∈ seq
+        · exact fill_refine ds seq brA brB htopo hbA hbB k1 k2 (fun s hs => gB.dn s (gB.lt hs) hs) i hi
+        · have e1 : (fillnodataUpstream ds seq brA 0)[i]! = brA[i]! := fill_untouched ds brA 0 seq htopo hbA i hi
+          have e2 : (fillnodataUpstream ds seq brB 0)[i]! = brB[i]! := fill_untouched ds brB 0 seq htopo hbB i hi
+          rw [e1, e2]
+          have hA0 : brA[i]! = 0 := Classical.byContradiction fun hne => hi (gA.coded_mem c hne)
+          have hB0 : brB[i]! = 0 := Classical.byContradiction fun hne => hi (gB.coded_mem c hne)
+          rw [hA0, hB0]; rfl
+      refine ⟨by simp [amap, hfA, hfB], fun i => ?_⟩
+      by_cases hi : i < ds.size
+      · rw [amap_get! _ i (by rw [hfB]; exact hi), amap_get! _ i (by rw [hfA]; exact hi), ← hfill i]
+        have := quot_mod (A := (fillnodataUpstream ds seq brB 0)[i]!) (D := depth + 1) (k := 1) (by omega)
+        simp only [Int.pow_one, Nat.add_sub_cancel] at this
+        exact this
+      · have hA : ¬ i < (amap (fun v => v % (10 : Int) ^ depth) (fillnodataUpstream ds seq brA 0)).size := by
+          simp [amap, hfA]; omega
+        have hB : ¬ i < (amap (fun v => v % (10 : Int) ^ (depth + 1)) (fillnodataUpstream ds seq brB 0)).size := by
+          simp [amap, hfB]; omega
+        simp [hA, hB]
+
+/-- the executable form of the preconditions (reported by the op `c18_pfaf` as `pre_ok` on the arrays the
+implementation was run with) implies the hypotheses of `pfaf_ok` -/
+theorem pfPreOK_sound (pits : List Nat) (ds : Array Nat) (seq : List Nat) (usMain : Array Nat)
+    (uparea : Array Int) (h : pfPreOK pits ds seq usMain uparea = true) :
+    Topo ds seq ∧ (∀ i ∈ seq, i < ds.size) ∧ (∀ i, i < ds.size → ds[i]! < ds.size → i ∈ seq) ∧
+    usMainOK ds usMain = true ∧ (∀ i ∈ seq, ds[i]! ≠ i → usMain[ds[i]!]! < ds.size) ∧
+    (∀ i ∈ seq, ds[i]! ≠ i → uparea[i]! < uparea[ds[i]!]!) ∧ pits.Nodup ∧
+    (∀ p ∈ pits, p ∈ seq ∧ ds[p]! = p) := by
+  unfold pfPreOK at h
+  simp only [Bool.and_eq_true, List.all_eq_true, List.mem_range, Bool.or_eq_true, Bool.not_eq_true',
+    decide_eq_false_iff_not, List.contains_iff_mem, beq_iff_eq, decide_eq_true_eq] at h
+  obtain ⟨⟨⟨⟨⟨h1, h2⟩, h3⟩, h4⟩, h5⟩, h6⟩ := h
+  obtain ⟨t1, t2⟩ := isTopo_sound ds seq h1
+  refine ⟨t1, t2, fun i hi hd => ?_, h2, fun i hi hp => ?_, fun i hi hp => ?_, h5, h6⟩
+  · rcases h3 i hi with h | h
+    · exact absurd hd h
+    · exact h
+  · rcases h4 i hi with h | h
+    · exact absurd h hp
+    · exact h.1
+  · rcases h4 i hi with h | h
+    · exact absurd h hp
+    · exact h.2
+
+/-- `ok = true` under the executable preconditions -/
+theorem pfaf_ok_of_check (pits : List Nat) (ds : Array Nat) (seq : List Nat) (usMain : Array Nat)
+    (uparea : Array Int) (mask : Option (Array Bool)) (depth : Nat) (hd : 1 ≤ depth)
+    (hpre : pfPreOK pits ds seq usMain uparea = true)
+    (lab : Array Int) (idxs : List Nat) (tie ok : Bool)
+    (h : subbasinsPfafstetter pits ds seq usMain uparea mask depth = some (lab, idxs, tie, ok)) :
+    ok = true := by
+  obtain ⟨h1, h2, h3, h4, h5, h6, h7, h8⟩ := pfPreOK_sound pits ds seq usMain uparea hpre
+  exact pfaf_ok pits ds seq usMain uparea mask depth hd h1 h2 h3 h4 h5 h6 h7 h8 lab idxs tie ok h
+
+/-- the executable refinement certificate accepts the two model outputs -/
+theorem pfaf_refineOK (pits : List Nat) (ds : Array Nat) (seq : List Nat) (usMain : Array Nat)
+    (uparea : Array Int) (mask : Option (Array Bool)) (depth : Nat) (hd : 1 ≤ depth)
+    (hpre : pfPreOK pits ds seq usMain uparea = true)
+    (lab lab' : Array Int) (idxs idxs' : List Nat) (tie ok tie' ok' : Bool)
+    (h : subbasinsPfafstetter pits ds seq usMain uparea mask depth = some (lab, idxs, tie, ok))
+    (h' : subbasinsPfafstetter pits ds seq usMain uparea mask (depth + 1) = some (lab', idxs', tie', ok')) :
+    refineOK lab lab' = true := by
+  obtain ⟨h1, h2, h3, h4, h5, h6, h7, h8⟩ := pfPreOK_sound pits ds seq usMain uparea hpre
+  obtain ⟨hs, hv⟩ := pfaf_refine pits ds seq usMain uparea mask depth hd h1 h2 h3 h4 h5 h6 h7 h8
+    lab lab' idxs idxs' tie ok tie' ok' h h'
+  unfold refineOK
+  simp only [Bool.and_eq_true, beq_iff_eq, List.all_eq_true, List.mem_range]
+  exact ⟨hs, fun i _ => hv i⟩
 
 /-- **digits 1–9 per level** (algorithm level, every input): with `depth ≥ 1`, every cell of the
 network carries 0 or a code with exactly `depth` digits, each in 1..9 (`dig k` = digit of level `k`,
@@ -697,6 +946,45 @@ example : (decide (exMain2[1]! < exDs2.size) &&
        (#[11, 11, 11, 0, 12, 12, 12, 0, 11, 11] : Array Int)[exMain2[1]!]! == 11)) = true :=
   pfaf_ok_step_partial (so := Array.replicate 10 1) (idxs := [0, 4])
     ⟨by decide, by decide, by decide⟩ (by decide) (by decide) (by decide) (by decide) (by decide)
+-- `pfaf_ok` / `pfaf_partition_total` / `pfaf_closure` on the nested network: the preconditions hold (executable form),
+-- so the flag of the depth-2 run is `true` by the theorem (it is also `true` by evaluation, see above) and the
+-- unconditional partition / closure statements apply to its output (7 outlets, 7 distinct codes)
+example : pfPreOK [0] exDs2 exSeq2 exMain2 exUpa2 = true := by decide +kernel
+example : ∀ lab idxs tie ok, subbasinsPfafstetter [0] exDs2 exSeq2 exMain2 exUpa2 none 2 = some (lab, idxs, tie, ok) →
+    ok = true :=
+  fun lab idxs tie ok h => pfaf_ok_of_check _ _ _ _ _ _ 2 (by decide) (by decide +kernel) lab idxs tie ok h
+example : (∀ o ∈ [0, 4, 2, 3, 8, 7, 6], (#[11, 11, 31, 41, 21, 21, 23, 22, 51, 51] : Array Int)[o]! ≠ 0) ∧
+    (#[11, 11, 31, 41, 21, 21, 23, 22, 51, 51] : Array Int)[9]! =
+      (#[11, 11, 31, 41, 21, 21, 23, 22, 51, 51] : Array Int)[exDs2[9]!]! := by
+  obtain ⟨h1, h2, h3, h4, h5, h6, h7, h8⟩ := pfPreOK_sound [0] exDs2 exSeq2 exMain2 exUpa2 (by decide +kernel)
+  have hrun : subbasinsPfafstetter [0] exDs2 exSeq2 exMain2 exUpa2 none 2 =
+      some (#[11, 11, 31, 41, 21, 21, 23, 22, 51, 51], [0, 4, 2, 3, 8, 7, 6], false, true) := by decide +kernel
+  exact ⟨(pfaf_partition_total _ _ _ _ _ _ 2 (by decide) h1 h2 h3 h4 h5 h6 h7 h8 _ _ _ _ hrun).1,
+    pfaf_closure _ _ _ _ _ _ 2 (by decide) h1 h2 h3 h4 h5 h6 h7 h8 _ _ _ _ hrun 9 (by decide) (by decide)⟩
+-- `pfaf_link` on a link that leaves a returned outlet: cell 7 (code 22, a sub-basin of basin 2) drains to cell 5 (code 21):
+-- same prefix at level 0, digits 2 and 1 differ, the downstream digit 1 is odd and smaller
+example : linkOKAt exDs2 #[11, 11, 31, 41, 21, 21, 23, 22, 51, 51] 0 7 = true ∧
+    pre 0 (#[11, 11, 31, 41, 21, 21, 23, 22, 51, 51] : Array Int)[7]! =
+      pre 0 (#[11, 11, 31, 41, 21, 21, 23, 22, 51, 51] : Array Int)[exDs2[7]!]! ∧
+    dig 0 (#[11, 11, 31, 41, 21, 21, 23, 22, 51, 51] : Array Int)[7]! ≠
+      dig 0 (#[11, 11, 31, 41, 21, 21, 23, 22, 51, 51] : Array Int)[exDs2[7]!]! := by
+  obtain ⟨h1, h2, h3, h4, h5, h6, h7, h8⟩ := pfPreOK_sound [0] exDs2 exSeq2 exMain2 exUpa2 (by decide +kernel)
+  have hrun : subbasinsPfafstetter [0] exDs2 exSeq2 exMain2 exUpa2 none 2 =
+      some (#[11, 11, 31, 41, 21, 21, 23, 22, 51, 51], [0, 4, 2, 3, 8, 7, 6], false, true) := by decide +kernel
+  exact ⟨pfaf_link _ _ _ _ _ _ 2 (by decide) h1 h2 h3 h4 h5 h6 h7 h8 _ _ _ _ hrun 0 (by decide) 7 (by decide),
+    by decide, by decide⟩
+-- `pfaf_refine` on the nested network, depths 1 and 2 (the statement is non-trivial: depth 2 splits basin 2 into 21, 22, 23)
+example : refineOK #[1, 1, 3, 4, 2, 2, 2, 2, 5, 5] #[11, 11, 31, 41, 21, 21, 23, 22, 51, 51] = true :=
+  pfaf_refineOK [0] exDs2 exSeq2 exMain2 exUpa2 none 1 (by decide) (by decide +kernel) _ _
+    [0, 4, 2, 3, 8] [0, 4, 2, 3, 8, 7, 6] false true false true (by decide +kernel) (by decide +kernel)
+-- the strict monotonicity of the upstream area cannot be dropped from `pfaf_ok`: with the area of cell 8 raised
+-- above that of its downstream cell 2 the confluences of the stem 0-1-2-8-9 are no longer met from down- to
+-- upstream and the preconditions are rejected
+example : pfPreOK [0] exDs2 exSeq2 exMain2 #[10, 9, 4, 1, 4, 3, 1, 1, 5, 1] = false := by decide +kernel
+-- … and on this 5-cell star (cells 1, 2 drain to the pit 3; cells 0, 4 drain to 2) with the area of cell 2 raised above
+-- that of the pit, every other precondition holding, the flag is cleared: the main stem 3-2-0 is cut twice
+example : subbasinsPfafstetter [3] #[2, 3, 3, 3, 2] [3, 2, 1, 4, 0] #[5, 5, 0, 2, 5] #[1, 1, 8, 5, 1] none 1 =
+    some (#[5, 4, 5, 1, 2], [3, 4, 0, 1, 2], false, false) := by decide +kernel
 -- the certificates reject wrong maps: a swapped pair of inter-basin digits, a digit 0
 example : linkOK exDs2 1 #[3, 3, 1, 4, 2, 2, 2, 2, 5, 5] = false := by decide
 example : digitsOK 2 #[11, 10, 31, 41, 21, 21, 23, 22, 51, 51] = false := by decide
